@@ -52,6 +52,15 @@ Theorem C01_source_tie : Gen.RequireGlue.resolve_src = Model.ResolveSrc.expected
 Proof. exact resolve_source_unchanged. Qed.
 Print Assumptions C01_source_tie.
 
+(* ... and ONLY the failed module: every other module - in particular a member of a cycle through the failed one whose own
+   evaluation had completed - stays cached under every one of its names, with its exports, owner and evaluation counter
+   untouched (every failure branch of load_module has the shape (forget stx m ps, r)) *)
+Theorem C01_failure_evicts_only_the_failed : forall st m ps k m',
+  Inv st -> cache_get (files_cache st) ps = Some m -> m' <> m -> cached st k m' ->
+  cached (forget st m ps) k m' /\ store (forget st m ps) = store st /\ counters (forget st m ps) = counters st.
+Proof. intros st m ps k m' HI Hps Hne Hc. split; [exact (forget_keeps_others st m ps k m' HI Hps Hne Hc)|exact (forget_store st m ps)]. Qed.
+Print Assumptions C01_failure_evicts_only_the_failed.
+
 (* non-vacuity: a <-> b cycle in which a throws after b required './a' (the history that used to leave a stale alias) *)
 Example C01_nonvacuous :
   let fs := [([47;112;47;97;46;106;115], FJs [IBump; ISet 1 1; IReq [46;47;98] false; IThrow 7]);
@@ -59,5 +68,7 @@ Example C01_nonvacuous :
   let nr := {| n_registry := []; n_global := []; n_core := []; n_loader_reqs := []; n_loader_throws := [] |} in
   let st := run_tops fs nr 10 init_state [(parse [47;112], [46;47;97]); (parse [47;112], [46;47;97])] in
   Inv st /\ counters st = [([47;112;47;97;46;106;115], 2%nat); ([47;112;47;98;46;106;115], 1%nat)] /\
-  cache_get (files_cache st) [47;112;47;97] = None.
-Proof. cbv zeta. split; [apply reachable_inv|]. split; vm_compute; reflexivity. Qed.
+  cache_get (files_cache st) [47;112;47;97] = None /\
+  (* b, the member of the cycle that completed, survived both failures of a: still cached under its own path, evaluated once *)
+  cache_get (files_cache st) [47;112;47;98;46;106;115] = Some 3%nat.
+Proof. cbv zeta. split; [apply reachable_inv|]. repeat split; vm_compute; reflexivity. Qed.
